@@ -591,6 +591,7 @@ Definition hstartok (neg : bool) (e : exp) : bool :=
   if neg then match e with E_negation_arg => true | _ => false end else hstart e.
 Definition after_simple (neg : bool) : exp := if neg then E_negationend else E_simple_selector_sequence2__combinator.
 
+Ltac lsimp := repeat (progress (cbn [rev app]; rewrite ?rev_app_distr, <- ?app_assoc)).
 Definition nbi (i : item) : bool := negb (blank (snd i)).
 Definition nb (q : list item) : bool := existsb nbi q.
 Definition pres (q q' : list item) : Prop := nb q = true -> nb q' = true.
@@ -616,9 +617,10 @@ Proof. destruct cxs as [|[] ?]; reflexivity. Qed.
 
 Lemma ws_inert ns e cxs b c d w q ws :
   match cxs with CPseudoClass :: _ | CPseudoElement :: _ => false | CAttrib :: _ => true | _ => negb (T_S_0 e) end = true ->
-  exists q', msteps ns (mkSt e cxs None b c d w q) (r_ws ws) = Some (mkSt e cxs None b c d w q') /\ pres q q'.
+  exists q', msteps ns (mkSt e cxs None b c d w q) (r_ws ws) = Some (mkSt e cxs None b c d w q') /\ pres q q' /\
+             q' = rev (its_wsI ws) ++ q.
 Proof.
-  intros Hc. revert q. induction ws as [|x ws IH]; intros q; [exists q; split; [reflexivity|apply pres_refl]|].
+  intros Hc. revert q. induction ws as [|x ws IH]; intros q; [exists q; repeat split; [apply pres_refl]|].
   cbn [r_ws map msteps]. destruct x as [v|v]; cbn [r_w].
   - assert (E : mstep ns (mkSt e cxs None b c d w q) (mkS TS v) = Some (mkSt e cxs None b c d w q)).
     { destruct cxs as [|[] ?]; try discriminate Hc; try reflexivity.
@@ -627,35 +629,41 @@ Proof.
       - unfold mstep. change (handler_of (sty (mkS TS v))) with (Some H_S). unfold h_S. cbn [top_pseudo ctx top_is expd is_cx negb andb].
         apply negb_true_iff in Hc. rewrite Hc. reflexivity. }
     rewrite E. apply IH.
-  - rewrite comment_step. destruct (IH ((I_COMMENT, VComment v) :: q)) as (q' & E & P). exists q'. split; auto.
-    eapply pres_trans; [apply pres_push|exact P].
+  - rewrite comment_step. destruct (IH ((I_COMMENT, VComment v) :: q)) as (q' & E & P & X). exists q'. split; auto.
+    split; [eapply pres_trans; [apply pres_push|exact P]|].
+    rewrite X. cbn [its_wsI flat_map app rev]. rewrite <- app_assoc. reflexivity.
 Qed.
 
 Definition is_pcx (x : cx) : bool := match x with CPseudoClass | CPseudoElement => true | _ => false end.
 Lemma ws_pseudo ns e x o b c d w q ws : is_pcx x = true ->
-  exists q', msteps ns (mkSt e (x :: o) None b c d w q) (r_ws ws) = Some (mkSt e (x :: o) None b c d w q') /\ pres q q'.
+  exists q', msteps ns (mkSt e (x :: o) None b c d w q) (r_ws ws) = Some (mkSt e (x :: o) None b c d w q') /\ pres q q' /\
+             q' = sq_argws ws q.
 Proof.
-  intros Hx. revert q. induction ws as [|t ws IH]; intros q; [exists q; split; [reflexivity|apply pres_refl]|].
+  intros Hx. revert q. induction ws as [|t ws IH]; intros q; [exists q; repeat split; apply pres_refl|].
   cbn [r_ws map msteps]. destruct t as [v|v]; cbn [r_w].
-  - assert (E : exists q1, mstep ns (mkSt e (x :: o) None b c d w q) (mkS TS v) = Some (mkSt e (x :: o) None b c d w q1)
-                           /\ pres q q1).
-    { unfold mstep. change (handler_of (sty (mkS TS v))) with (Some H_S). unfold h_S.
+  - assert (E : mstep ns (mkSt e (x :: o) None b c d w q) (mkS TS v) =
+                Some (mkSt e (x :: o) None b c d w (sq_argw q (WS v))) /\ pres q (sq_argw q (WS v))).
+    { unfold mstep. change (handler_of (sty (mkS TS v))) with (Some H_S). unfold h_S, sq_argw.
+      change (last_pm (mkSt e (x :: o) None b c d w q)) with (hPM q).
+      change (nonempty_sq (mkSt e (x :: o) None b c d w q)) with (match q with [] => false | _ => true end).
       destruct x; try discriminate Hx; cbn [top_pseudo ctx];
-        (destruct (nonempty_sq _ && negb (last_pm _));
-         [eexists; split; [reflexivity|apply pres_push]|eexists; split; [reflexivity|apply pres_refl]]). }
-    destruct E as (q1 & E & P1). rewrite E. destruct (IH q1) as (q' & E' & P'). exists q'. split; auto.
-    eapply pres_trans; eauto.
-  - rewrite comment_step. destruct (IH ((I_COMMENT, VComment v) :: q)) as (q' & E & P). exists q'. split; auto.
-    eapply pres_trans; [apply pres_push|exact P].
+        (destruct (match q with [] => false | _ => true end && negb (hPM q));
+         [split; [reflexivity|apply pres_push]|split; [reflexivity|apply pres_refl]]). }
+    destruct E as (E & P1). rewrite E. destruct (IH (sq_argw q (WS v))) as (q' & E' & P' & X). exists q'. split; auto.
+    split; [eapply pres_trans; eauto|exact X].
+  - rewrite comment_step. destruct (IH ((I_COMMENT, VComment v) :: q)) as (q' & E & P & X). exists q'. split; auto.
+    split; [eapply pres_trans; [apply pres_push|exact P]|exact X].
 Qed.
 
 Lemma cm_any ns e cxs b c d w q cm :
-  exists q', msteps ns (mkSt e cxs None b c d w q) (r_cm cm) = Some (mkSt e cxs None b c d w q') /\ pres q q'.
+  exists q', msteps ns (mkSt e cxs None b c d w q) (r_cm cm) = Some (mkSt e cxs None b c d w q') /\ pres q q' /\
+             q' = rev (its_cm cm) ++ q.
 Proof.
-  revert q. induction cm as [|v cm IH]; intros q; [exists q; split; [reflexivity|apply pres_refl]|].
+  revert q. induction cm as [|v cm IH]; intros q; [exists q; repeat split; apply pres_refl|].
   cbn [r_cm map msteps]. rewrite comment_step.
-  destruct (IH ((I_COMMENT, VComment v) :: q)) as (q' & E & P). exists q'. split; auto.
-  eapply pres_trans; [apply pres_push|exact P].
+  destruct (IH ((I_COMMENT, VComment v) :: q)) as (q' & E & P & X). exists q'. split; auto.
+  split; [eapply pres_trans; [apply pres_push|exact P]|].
+  rewrite X. cbn [its_cm map rev]. rewrite <- app_assoc. reflexivity.
 Qed.
 
 (* root-level layout: class A = {sss} is kept, class B = after a compound is kept *)
@@ -664,7 +672,7 @@ Definition clsB (e : exp) : bool :=
              | _ => false end.
 Lemma ws_root_B ns e b c d w q ws : clsB e = true ->
   exists e' q', msteps ns (mkSt e [] None b c d w q) (r_ws ws) = Some (mkSt e' [] None b c d w q') /\ pres q q' /\
-                clsB e' = true /\ (e = E_simple_selector_sequence__combinator -> e' = e).
+                clsB e' = true /\ (e = E_simple_selector_sequence__combinator -> e' = e) /\ q' = rev (its_wsB ws) ++ q.
 Proof.
   revert e q. induction ws as [|t ws IH]; intros e q He; [exists e, q; repeat split; auto using pres_refl|].
   cbn [r_ws map msteps]. destruct t as [v|v]; cbn [r_w].
@@ -672,21 +680,16 @@ Proof.
                 Some (mkSt E_simple_selector_sequence__combinator [] None b c d w ((I_descendant, VStr (s " ")) :: q))).
     { destruct e; try discriminate He; reflexivity. }
     rewrite E. destruct (IH E_simple_selector_sequence__combinator ((I_descendant, VStr (s " ")) :: q) eq_refl)
-      as (e' & q' & E' & P & B & K).
+      as (e' & q' & E' & P & B & K & X).
     exists e', q'. split; [exact E'|]. split; [eapply pres_trans; [apply pres_push|exact P]|].
-    split; [exact B|]. intros ->. auto.
-  - rewrite comment_step. destruct (IH e ((I_COMMENT, VComment v) :: q) He) as (e' & q' & E' & P & B & K).
-    exists e', q'. repeat split; auto. eapply pres_trans; [apply pres_push|exact P].
+    split; [exact B|]. split; [intros ->; auto|].
+    rewrite X. cbn [its_wsB map rev]. rewrite <- app_assoc. reflexivity.
+  - rewrite comment_step. destruct (IH e ((I_COMMENT, VComment v) :: q) He) as (e' & q' & E' & P & B & K & X).
+    exists e', q'. split; [exact E'|]. split; [eapply pres_trans; [apply pres_push|exact P]|].
+    split; [exact B|]. split; [exact K|].
+    rewrite X. cbn [its_wsB map rev]. rewrite <- app_assoc. reflexivity.
 Qed.
 
-
-Definition uri_of (ns : ns_map) (q : nsq) : nsuri :=
-  match q with
-  | NsDefault => match assoc_s [] ns with Some u => UStr u | None => UNone end
-  | NsAny => UAny
-  | NsNo => UStr []
-  | NsP p => match assoc_s p ns with Some u => UStr u | None => UNone end
-  end.
 
 Lemma hash_ok ns neg e b c d w q v : startok neg e = true ->
   msteps ns (mkSt e (octx neg) None b c d w q) [mkS THASH v] =
@@ -763,15 +766,16 @@ Qed.
 (* ---- attribute selectors *)
 Lemma attname_ok ns o b c d w q qn n : declared ns qn = true -> ident n = true ->
   exists q', msteps ns (mkSt E_attname (CAttrib :: o) None b c d w q) (g_ns qn ++ [mkS TIDENT n]) =
-             Some (mkSt E_attcombinator (CAttrib :: o) None b c d w q') /\ pres q q'.
+             Some (mkSt E_attcombinator (CAttrib :: o) None b c d w q') /\ pres q q' /\ q' = it_attname ns qn n :: q.
 Proof.
   intros Hd Hn. destruct qn as [| | |p].
-  - eexists; split; [reflexivity|apply pres_push].
-  - eexists; split; [reflexivity|apply pres_push].
-  - eexists; split; [reflexivity|apply pres_push].
+  - eexists; split; [reflexivity|split; [apply pres_push|reflexivity]].
+  - eexists; split; [reflexivity|split; [apply pres_push|reflexivity]].
+  - eexists; split; [reflexivity|split; [apply pres_push|reflexivity]].
   - simpl in Hd. apply andb_true_iff in Hd as [Hp Ha]. destruct (ident_facts p Hp) as (A & B & C & D & E & F & G).
     destruct (assoc_s p ns) as [u|] eqn:Eu; [|discriminate].
-    exists ((I_attribute_selector, VPair (UStr u) n) :: q). split; [|apply pres_push].
+    exists ((I_attribute_selector, VPair (UStr u) n) :: q).
+    split; [|split; [apply pres_push|cbn [it_attname uri_of]; rewrite Eu; reflexivity]].
     cbn [g_ns nsval app msteps].
     assert (S1 : mstep ns (mkSt E_attname (CAttrib :: o) None b c d w q) (mkS Tnamespace_prefix (p ++ s "|")) =
                  Some (mkSt E_attname2 (CAttrib :: o) (Some p) b c d w q)).
@@ -795,38 +799,43 @@ Proof.
     cbn [app]; reflexivity.
 Qed.
 
+Definition its_rest (a : attr) : list item :=
+  match at_rest a with None => [] | Some (o, w3, v, w4) => it_op o :: its_wsI w3 ++ it_av v :: its_wsI w4 end.
 Lemma rest_ok ns o b c d w q a :
   match at_rest a with
   | None => true
   | Some (_, w3, v, w4) => ok_ws w3 && ok_ws w4 && match v with AvI x => ident x | AvS x => quoted x end
   end = true ->
   exists e' q', msteps ns (mkSt E_attcombinator (CAttrib :: o) None b c d w q) (g_rest a) =
-             Some (mkSt e' (CAttrib :: o) None b c d w q') /\ pres q q' /\ T_char_0 e' = true.
+             Some (mkSt e' (CAttrib :: o) None b c d w q') /\ pres q q' /\ T_char_0 e' = true /\
+             q' = rev (its_rest a) ++ q.
 Proof.
-  unfold g_rest. destruct (at_rest a) as [[[[op w3] v] w4]|]; intros H.
+  unfold g_rest, its_rest. destruct (at_rest a) as [[[[op w3] v] w4]|]; intros H.
   - do 2 (apply andb_true_iff in H; destruct H as [H ?]).
     rewrite msteps_app.
-    assert (S1 : exists q1, msteps ns (mkSt E_attcombinator (CAttrib :: o) None b c d w q) [r_op op] =
-                 Some (mkSt E_attvalue (CAttrib :: o) None b c d w q1) /\ pres q q1).
-    { destruct op; (eexists; split; [reflexivity|apply pres_push]). }
-    destruct S1 as (q1 & E1 & P1). rewrite E1. rewrite msteps_app.
-    destruct (ws_inert ns E_attvalue (CAttrib :: o) b c d w q1 w3 eq_refl) as (q2 & E2 & P2). rewrite E2.
+    assert (S1 : msteps ns (mkSt E_attcombinator (CAttrib :: o) None b c d w q) [r_op op] =
+                 Some (mkSt E_attvalue (CAttrib :: o) None b c d w (it_op op :: q))).
+    { destruct op; reflexivity. }
+    rewrite S1. rewrite msteps_app.
+    destruct (ws_inert ns E_attvalue (CAttrib :: o) b c d w (it_op op :: q) w3 eq_refl) as (q2 & E2 & P2 & X2). rewrite E2.
     rewrite msteps_app.
-    assert (S3 : exists q3, msteps ns (mkSt E_attvalue (CAttrib :: o) None b c d w q2) [r_av v] =
-                 Some (mkSt E_attend (CAttrib :: o) None b c d w q3) /\ pres q2 q3).
+    assert (S3 : msteps ns (mkSt E_attvalue (CAttrib :: o) None b c d w q2) [r_av v] =
+                 Some (mkSt E_attend (CAttrib :: o) None b c d w (it_av v :: q2))).
     { destruct v as [x|x].
-      - eexists; split; [reflexivity|apply pres_push].
-      - destruct x as [|c0 r]; [discriminate|]. eexists; split; [reflexivity|apply pres_push]. }
-    destruct S3 as (q3 & E3 & P3). rewrite E3.
-    destruct (ws_inert ns E_attend (CAttrib :: o) b c d w q3 w4 eq_refl) as (q4 & E4 & P4).
-    exists E_attend, q4. split; [exact E4|]. split; [|reflexivity].
-    eauto using pres_trans.
+      - reflexivity.
+      - destruct x as [|c0 r]; [discriminate|]. reflexivity. }
+    rewrite S3.
+    destruct (ws_inert ns E_attend (CAttrib :: o) b c d w (it_av v :: q2) w4 eq_refl) as (q4 & E4 & P4 & X4).
+    exists E_attend, q4. split; [exact E4|]. split; [|split; [reflexivity|]].
+    + eapply pres_trans; [apply pres_push|]. eapply pres_trans; [exact P2|]. eapply pres_trans; [apply pres_push|exact P4].
+    + rewrite X4, X2. cbn [rev]. rewrite !rev_app_distr. cbn [rev app]. rewrite <- !app_assoc. reflexivity.
   - exists E_attcombinator, q. repeat split; auto using pres_refl.
 Qed.
 
 Lemma attr_ok ns neg e b c d w q a : startok neg e = true -> ok_attr ns a = true ->
   exists q', msteps ns (mkSt e (octx neg) None b c d w q) (g_attr a) =
-             Some (mkSt (after_simple neg) (octx neg) None b (S c) d w q') /\ nb q' = true.
+             Some (mkSt (after_simple neg) (octx neg) None b (S c) d w q') /\ nb q' = true /\
+             q' = rev (its_attr ns a) ++ q.
 Proof.
   intros He H. unfold ok_attr in H. do 4 (apply andb_true_iff in H; destruct H as [H ?]).
   rename H into Hw1, H3 into Hd, H2 into Hn, H1 into Hw2, H0 into Hr.
@@ -836,16 +845,18 @@ Proof.
   { destruct neg, e; try discriminate He; reflexivity. }
   rewrite S1. set (q0 := (I_attribute_start, VStr (s "[")) :: q). assert (N0 : nb q0 = true) by reflexivity.
   rewrite msteps_app.
-  destruct (ws_inert ns E_attname (CAttrib :: octx neg) b (S c) d w q0 (at_w1 a) eq_refl) as (q1 & E1 & P1). rewrite E1.
+  destruct (ws_inert ns E_attname (CAttrib :: octx neg) b (S c) d w q0 (at_w1 a) eq_refl) as (q1 & E1 & P1 & X1). rewrite E1.
   rewrite msteps_app.
-  destruct (attname_ok ns (octx neg) b (S c) d w q1 _ _ Hd Hn) as (q2 & E2 & P2). rewrite E2.
+  destruct (attname_ok ns (octx neg) b (S c) d w q1 _ _ Hd Hn) as (q2 & E2 & P2 & X2). rewrite E2.
   rewrite msteps_app.
-  destruct (ws_inert ns E_attcombinator (CAttrib :: octx neg) b (S c) d w q2 (at_w2 a) eq_refl) as (q3 & E3 & P3).
+  destruct (ws_inert ns E_attcombinator (CAttrib :: octx neg) b (S c) d w q2 (at_w2 a) eq_refl) as (q3 & E3 & P3 & X3).
   rewrite E3. rewrite msteps_app.
-  destruct (rest_ok ns (octx neg) b (S c) d w q3 a Hr) as (e4 & q4 & E4 & P4 & T4). rewrite E4.
-  exists ((I_attribute_end, VStr (s "]")) :: q4). split.
+  destruct (rest_ok ns (octx neg) b (S c) d w q3 a Hr) as (e4 & q4 & E4 & P4 & T4 & X4). rewrite E4.
+  exists ((I_attribute_end, VStr (s "]")) :: q4). split; [|split].
   - destruct neg, e4; try discriminate T4; reflexivity.
   - apply (pres_nb q0); auto. eapply pres_trans; [|apply pres_push]. eauto using pres_trans.
+  - rewrite X4, X3, X2, X1. unfold q0, its_attr. fold (its_rest a).
+    lsimp. reflexivity.
 Qed.
 
 (* ---- functional pseudo arguments *)
@@ -862,38 +873,41 @@ Definition estart (e : exp) : bool := match e with E_expressionstart | E_express
 
 Lemma et_step ns x o b c d w e0 q t : is_pcx x = true -> estart e0 = true -> ok_et t = true ->
   exists q1, mstep ns (mkSt e0 (x :: o) None b c d w q) (r_et t) = Some (mkSt E_expression (x :: o) None b c d w q1)
-             /\ pres q q1.
+             /\ pres q q1 /\ q1 = sq_et t q.
 Proof.
-  intros Hx He Ht. destruct t; cbn [r_et ok_et] in *.
+  intros Hx He Ht. destruct t; cbn [r_et ok_et sq_et] in *.
   - unfold mstep. change (handler_of _) with (Some H_char). unfold h_char.
+    change (hS q) with (last_S (mkSt e0 (x :: o) None b c d w q)).
     destruct (last_S (mkSt e0 (x :: o) None b c d w q)) eqn:L.
-    + destruct q as [|i q]; [discriminate L|]. exists ((I_plus, VStr (s "+")) :: q). split.
+    + destruct q as [|i q]; [discriminate L|]. exists ((I_plus, VStr (s "+")) :: q). split; [|split; [|reflexivity]].
       * destruct x, e0; try discriminate; reflexivity.
       * apply pres_replace. eapply last_S_blank; eauto.
-    + exists ((I_plus, VStr (s "+")) :: q). split; [|apply pres_push].
+    + exists ((I_plus, VStr (s "+")) :: q). split; [|split; [apply pres_push|reflexivity]].
       destruct x, e0; try discriminate; reflexivity.
-  - eexists. split; [|apply pres_push]. destruct x, e0; try discriminate; reflexivity.
-  - eexists. split; [|apply pres_push]. destruct x, e0; try discriminate; reflexivity.
-  - eexists. split; [|apply pres_push]. destruct x, e0; try discriminate; reflexivity.
-  - destruct v as [|c0 r]; [discriminate|]. eexists. split; [|apply pres_push].
+  - eexists. split; [|split; [apply pres_push|reflexivity]]. destruct x, e0; try discriminate; reflexivity.
+  - eexists. split; [|split; [apply pres_push|reflexivity]]. destruct x, e0; try discriminate; reflexivity.
+  - eexists. split; [|split; [apply pres_push|reflexivity]]. destruct x, e0; try discriminate; reflexivity.
+  - destruct v as [|c0 r]; [discriminate|]. eexists. split; [|split; [apply pres_push|reflexivity]].
     destruct x, e0; try discriminate; reflexivity.
-  - eexists. split; [|apply pres_push]. destruct x, e0; try discriminate; reflexivity.
+  - eexists. split; [|split; [apply pres_push|reflexivity]]. destruct x, e0; try discriminate; reflexivity.
 Qed.
 
 Lemma expr_ok ns x o b c d w e0 q l : is_pcx x = true -> estart e0 = true ->
   forallb (fun p => ok_et (fst p) && ok_ws (snd p)) l = true ->
   exists q', msteps ns (mkSt e0 (x :: o) None b c d w q) (r_expr l) =
-             Some (mkSt (match l with [] => e0 | _ => E_expression end) (x :: o) None b c d w q') /\ pres q q'.
+             Some (mkSt (match l with [] => e0 | _ => E_expression end) (x :: o) None b c d w q') /\ pres q q' /\
+             q' = sq_expr l q.
 Proof.
   intros Hx. revert e0 q. induction l as [|[t ws] l IH]; intros e0 q He Hl.
-  - exists q. split; [reflexivity|apply pres_refl].
+  - exists q. split; [reflexivity|split; [apply pres_refl|reflexivity]].
   - cbn [forallb fst snd] in Hl. apply andb_true_iff in Hl as [H1 H2]. apply andb_true_iff in H1 as [H0 H1].
     cbn [r_expr flat_map fst snd app]. rewrite msteps_cons. cbn [msteps].
-    destruct (et_step ns x o b c d w e0 q t Hx He H0) as (q1 & E1 & P1). rewrite E1. rewrite msteps_app.
-    destruct (ws_pseudo ns E_expression x o b c d w q1 ws Hx) as (q2 & E2 & P2). rewrite E2.
-    destruct (IH E_expression q2 eq_refl H2) as (q3 & E3 & P3). exists q3. split.
+    destruct (et_step ns x o b c d w e0 q t Hx He H0) as (q1 & E1 & P1 & X1). rewrite E1. rewrite msteps_app.
+    destruct (ws_pseudo ns E_expression x o b c d w q1 ws Hx) as (q2 & E2 & P2 & X2). rewrite E2.
+    destruct (IH E_expression q2 eq_refl H2) as (q3 & E3 & P3 & X3). exists q3. split; [|split].
     + fold (r_expr l). rewrite E3. destruct l; reflexivity.
     + eauto using pres_trans.
+    + rewrite X3, X2, X1. reflexivity.
 Qed.
 
 (* ---- str.lower() keeps identifiers identifiers (ASCII by arithmetic, the rest by a check of the generated table) *)
@@ -972,7 +986,8 @@ Definition bumped (e : exp) (o : list cx) (v : v3) (b c d : nat) (w : bool) (q :
 
 Lemma pseudo_id_ok ns neg e b c d w q dbl n : startok neg e = true -> ident n = true -> ident (lower n) = true ->
   exists q', msteps ns (mkSt e (octx neg) None b c d w q) (g_pseudo (PsId dbl n)) =
-             Some (bumped (after_pseudo neg (PsId dbl n)) (octx neg) (sp_pseudo (PsId dbl n)) b c d w q') /\ nb q' = true.
+             Some (bumped (after_pseudo neg (PsId dbl n)) (octx neg) (sp_pseudo (PsId dbl n)) b c d w q') /\ nb q' = true /\
+             q' = sq_pseudo (PsId dbl n) q.
 Proof.
   intros He Hn Hl.
   pose proof (normalize_id (cval dbl) n (cval_noslash dbl) Hn) as Nm. rewrite lower_cval in Nm.
@@ -983,15 +998,16 @@ Proof.
   rewrite Hh. unfold h_pseudo. cbn [sval sty]. rewrite Nm, L40.
   destruct dbl.
   - cbn [pty is_t tty_eqb]. rewrite orb_true_r.
-    exists ((I_pseudo_element, VStr (cval true ++ lower n)) :: q). split.
-    + destruct neg, e; try discriminate He; reflexivity.
-    + reflexivity.
+    exists ((I_pseudo_element, VStr (cval true ++ lower n)) :: q). split; [|split; reflexivity].
+    destruct neg, e; try discriminate He; reflexivity.
   - cbn [pty is_t tty_eqb]. rewrite orb_false_r. change (mem_str (cval false ++ lower n) legacy_pseudo_elements) with (is_legacy n).
     cbn [sp_pseudo after_pseudo pseudo_is_element orb].
     destruct (is_legacy n) eqn:Lg.
-    + exists ((I_pseudo_element, VStr (cval false ++ lower n)) :: q). split; [|reflexivity].
+    + exists ((I_pseudo_element, VStr (cval false ++ lower n)) :: q).
+      split; [|split; [reflexivity|cbn [sq_pseudo pseudo_ityp orb]; rewrite Lg; reflexivity]].
       destruct neg, e; try discriminate He; cbn [after_pseudo pseudo_is_element orb]; rewrite ?Lg; reflexivity.
-    + exists ((I_pseudo_class, VStr (cval false ++ lower n)) :: q). split; [|reflexivity].
+    + exists ((I_pseudo_class, VStr (cval false ++ lower n)) :: q).
+      split; [|split; [reflexivity|cbn [sq_pseudo pseudo_ityp orb]; rewrite Lg; reflexivity]].
       destruct neg, e; try discriminate He; cbn [after_pseudo pseudo_is_element orb]; rewrite ?Lg;
         cbn; cbn in NW; rewrite NW; reflexivity.
 Qed.
@@ -1014,7 +1030,7 @@ Definition pcx (dbl : bool) : cx := if dbl then CPseudoElement else CPseudoClass
 Lemma pseudo_fn_ok ns neg e b c d w q dbl n ws l : startok neg e = true -> ok_pseudo (PsFn dbl n ws l) = true ->
   exists q', msteps ns (mkSt e (octx neg) None b c d w q) (g_pseudo (PsFn dbl n ws l)) =
              Some (bumped (after_pseudo neg (PsFn dbl n ws l)) (octx neg) (sp_pseudo (PsFn dbl n ws l)) b c d w q')
-             /\ nb q' = true.
+             /\ nb q' = true /\ q' = sq_pseudo (PsFn dbl n ws l) q.
 Proof.
   intros He H. cbn [ok_pseudo] in H. do 3 (apply andb_true_iff in H; destruct H as [H ?]).
   rename H into Hn, H1 into Hws, H0 into Hl.
@@ -1023,34 +1039,36 @@ Proof.
   pose proof (last40_not_legacy _ L40) as NL.
   cbn [g_pseudo]. rewrite msteps_cons.
   assert (S1 : exists q1, msteps ns (mkSt e (octx neg) None b c d w q) [mkS (pty dbl) (cval dbl ++ n ++ s "(")] =
-      Some (bumped E_expressionstart (pcx dbl :: octx neg) (sp_pseudo (PsFn dbl n ws l)) b c d w q1) /\ nb q1 = true).
+      Some (bumped E_expressionstart (pcx dbl :: octx neg) (sp_pseudo (PsFn dbl n ws l)) b c d w q1) /\ nb q1 = true /\
+      q1 = (pseudo_ityp (PsFn dbl n ws l), VStr (colon_str dbl ++ lower n ++ s "(")) :: q).
   { cbn [msteps]. unfold mstep.
     assert (Hh : handler_of (sty (mkS (pty dbl) (cval dbl ++ n ++ s "("))) = Some H_pseudo) by (destruct dbl; reflexivity).
     rewrite Hh. unfold h_pseudo. cbn [sval sty]. rewrite Nm, L40, NL. cbn [orb].
     destruct dbl.
-    - exists ((I_pseudo_element, VStr (cval true ++ lower n ++ s "(")) :: q). split; [|reflexivity].
+    - exists ((I_pseudo_element, VStr (cval true ++ lower n ++ s "(")) :: q). split; [|split; reflexivity].
       destruct neg, e; try discriminate He; reflexivity.
-    - exists ((I_pseudo_class, VStr (cval false ++ lower n ++ s "(")) :: q). split; [|reflexivity].
+    - exists ((I_pseudo_class, VStr (cval false ++ lower n ++ s "(")) :: q). split; [|split; reflexivity].
       pose proof (where_eq (lower n)) as W. cbn [sp_pseudo]. unfold is_where.
       destruct (eqs (lower n) (s "where")) eqn:Ew;
         destruct neg, e; try discriminate He; cbn; cbn in W; rewrite W; reflexivity. }
-  destruct S1 as (q1 & E1 & N1). rewrite E1.
+  destruct S1 as (q1 & E1 & N1 & X1). rewrite E1.
   destruct (sp_pseudo (PsFn dbl n ws l)) as [[x y] z]. cbn [bumped].
   assert (Hx : is_pcx (pcx dbl) = true) by (destruct dbl; reflexivity).
   rewrite msteps_app.
-  destruct (ws_pseudo ns E_expressionstart (pcx dbl) (octx neg) (x + b) (y + c) (z + d) w q1 ws Hx) as (q2 & E2 & P2).
+  destruct (ws_pseudo ns E_expressionstart (pcx dbl) (octx neg) (x + b) (y + c) (z + d) w q1 ws Hx) as (q2 & E2 & P2 & X2).
   rewrite E2. rewrite msteps_app.
   unfold ok_expr in Hl. destruct l as [|t0 l0]; [discriminate|].
   destruct (expr_ok ns (pcx dbl) (octx neg) (x + b) (y + c) (z + d) w E_expressionstart q2 (t0 :: l0) Hx eq_refl Hl)
-    as (q3 & E3 & P3). rewrite E3.
-  exists ((I_function_end, VStr (s ")")) :: q3). split.
+    as (q3 & E3 & P3 & X3). rewrite E3.
+  exists ((I_function_end, VStr (s ")")) :: q3). split; [|split].
   - destruct dbl, neg; reflexivity.
   - apply (pres_nb q1); auto. eapply pres_trans; [|apply pres_push]. eauto using pres_trans.
+  - rewrite X3, X2, X1. reflexivity.
 Qed.
 
 Lemma pseudo_ok ns neg e b c d w q p : startok neg e = true -> ok_pseudo p = true ->
   exists q', msteps ns (mkSt e (octx neg) None b c d w q) (g_pseudo p) =
-             Some (bumped (after_pseudo neg p) (octx neg) (sp_pseudo p) b c d w q') /\ nb q' = true.
+             Some (bumped (after_pseudo neg p) (octx neg) (sp_pseudo p) b c d w q') /\ nb q' = true /\ q' = sq_pseudo p q.
 Proof.
   intros He H. destruct p as [dbl n|dbl n ws l].
   - cbn [ok_pseudo] in H. apply pseudo_id_ok; auto using lower_ident.
@@ -1065,17 +1083,61 @@ Proof. destruct u as [[x y] z], v as [[x' y'] z']. cbn [bumped add3]. f_equal; l
 Lemma nb_hash t v q : hashv v = true -> nb ((t, VStr v) :: q) = true.
 Proof. destruct v as [|c r]; [discriminate|]. cbn [hashv]. intros H. apply N.eqb_eq in H. subst. reflexivity. Qed.
 
+Definition hblank (q : list item) : bool := match q with (_, v) :: _ => blank v | [] => false end.
+Lemma hblank_hS q : hblank q = false -> hS q = false.
+Proof.
+  destruct q as [|[t v] q]; [reflexivity|]. cbn [hblank hS]. destruct v; try reflexivity. unfold ival_is.
+  intros H. destruct (eqs v (s " ")) eqn:E; [|reflexivity]. apply eqs_spec in E. subst. discriminate H.
+Qed.
+Lemma hblank_pseudo p q : hblank (sq_pseudo p q) = false.
+Proof. destruct p as [dbl n|dbl n w e]; [destruct dbl; reflexivity|reflexivity]. Qed.
+
+(* the argument steps only look at / replace the head of the seq: they commute with a non-empty prefix *)
+Lemma sq_argw_local a q x : a <> [] -> sq_argw (a ++ q) x = sq_argw a x ++ q /\ sq_argw a x <> [].
+Proof.
+  destruct a as [|i a]; [congruence|]. intros _. destruct x as [v|v]; cbn [sq_argw app hPM].
+  - destruct (negb (let (_, v0) := i in ival_is v0 (s "+") || ival_is v0 (s "-"))); cbn [andb]; split; try reflexivity; discriminate.
+  - split; [reflexivity|discriminate].
+Qed.
+Lemma sq_argws_local w : forall a q, a <> [] -> sq_argws w (a ++ q) = sq_argws w a ++ q /\ sq_argws w a <> [].
+Proof.
+  induction w as [|x w IH]; intros a q Ha; [split; [reflexivity|exact Ha]|].
+  unfold sq_argws. cbn [fold_left]. destruct (sq_argw_local a q x Ha) as [E N]. rewrite E. apply (IH _ q N).
+Qed.
+Lemma sq_et_local t a q : a <> [] -> sq_et t (a ++ q) = sq_et t a ++ q /\ sq_et t a <> [].
+Proof.
+  destruct a as [|i a]; [congruence|]. intros _. destruct t; cbn [sq_et app hS tl]; try (split; [reflexivity|discriminate]).
+  destruct (let (_, v) := i in ival_is v (s " ")); split; try reflexivity; discriminate.
+Qed.
+Lemma sq_expr_local e : forall a q, a <> [] -> sq_expr e (a ++ q) = sq_expr e a ++ q /\ sq_expr e a <> [].
+Proof.
+  induction e as [|[t w] e IH]; intros a q Ha; [split; [reflexivity|exact Ha]|].
+  cbn [sq_expr]. destruct (sq_et_local t a q Ha) as [E1 N1]. rewrite E1.
+  destruct (sq_argws_local w _ q N1) as [E2 N2]. rewrite E2. apply (IH _ q N2).
+Qed.
+Lemma sq_pseudo_its p q : sq_pseudo p q = rev (its_pseudo p) ++ q.
+Proof.
+  unfold its_pseudo. rewrite rev_involutive. destruct p as [dbl n|dbl n w e]; [reflexivity|].
+  unfold sq_pseudo.
+  pose proof (sq_argws_local w [(pseudo_ityp (PsFn dbl n w e), VStr (colon_str dbl ++ lower n ++ s "("))] q
+                ltac:(discriminate)) as [E1 N1].
+  cbn [app] in E1. cbn [app]. f_equal.
+  destruct (sq_expr_local e _ q N1) as [E2 _]. etransitivity; [|exact E2]. f_equal. exact E1.
+Qed.
+
 Lemma negarg_ok ns b c d w q a : ok_negarg ns a = true ->
   exists q', msteps ns (mkSt E_negation_arg [CNegation] None b c d w q) (g_negarg a) =
-             Some (bumped E_negationend [CNegation] (sp_negarg a) b c d w q') /\ nb q' = true.
+             Some (bumped E_negationend [CNegation] (sp_negarg a) b c d w q') /\ nb q' = true /\
+             q' = rev (its_negarg ns a) ++ q.
 Proof.
-  destruct a; cbn [ok_negarg g_negarg sp_negarg]; intros H.
-  - apply andb_true_iff in H as [H1 H2]. eexists. split; [apply (tname_ok ns true); auto|reflexivity].
-  - eexists. split; [apply (univ_ok ns true); auto|reflexivity].
-  - eexists. split; [apply (hash_ok ns true); auto|now apply nb_hash].
-  - eexists. split; [apply (class_ok ns true); auto|reflexivity].
+  destruct a; cbn [ok_negarg g_negarg sp_negarg its_negarg]; intros H.
+  - apply andb_true_iff in H as [H1 H2]. eexists. split; [apply (tname_ok ns true); auto|split; reflexivity].
+  - eexists. split; [apply (univ_ok ns true); auto|split; reflexivity].
+  - eexists. split; [apply (hash_ok ns true); auto|split; [now apply nb_hash|reflexivity]].
+  - eexists. split; [apply (class_ok ns true); auto|split; reflexivity].
   - apply (attr_ok ns true); auto.
-  - apply (pseudo_ok ns true); auto.
+  - destruct (pseudo_ok ns true E_negation_arg b c d w q p eq_refl H) as (q' & E & N & X).
+    exists q'. split; [exact E|]. split; [exact N|]. rewrite X. apply sq_pseudo_its.
 Qed.
 
 Definition contB (e : exp) : bool :=
@@ -1086,14 +1148,17 @@ Lemma hstart_cont e : hstart e = true -> cont e = true. Proof. destruct e; auto.
 
 Lemma simple_ok ns e b c d w q x : cont e = true -> ok_simple ns x = true ->
   exists e' q', msteps ns (mkSt e [] None b c d w q) (g_simple x) = Some (bumped e' [] (sp_simple x) b c d w q')
-                /\ nb q' = true /\ contB e' = true.
+                /\ nb q' = true /\ contB e' = true /\ q' = rev (its_simple ns x) ++ q /\ hblank q' = false.
 Proof.
-  intros He. destruct x; cbn [ok_simple g_simple sp_simple]; intros H.
-  - do 2 eexists. split; [apply (hash_ok ns false); auto|]. split; [now apply nb_hash|reflexivity].
-  - do 2 eexists. split; [apply (class_ok ns false); auto|]. split; reflexivity.
-  - destruct (attr_ok ns false e b c d w q a He H) as (q' & E & N). do 2 eexists. split; [exact E|]. split; auto.
+  intros He. destruct x; cbn [ok_simple g_simple sp_simple its_simple]; intros H.
+  - do 2 eexists. split; [apply (hash_ok ns false); auto|]. split; [now apply nb_hash|split; [reflexivity|split; [reflexivity|]]].
+    destruct v as [|c0 r0]; [discriminate|]. cbn [hashv] in H. apply N.eqb_eq in H. subst. reflexivity.
+  - do 2 eexists. split; [apply (class_ok ns false); auto|]. repeat split; reflexivity.
+  - destruct (attr_ok ns false e b c d w q a He H) as (q' & E & N & X). do 2 eexists. split; [exact E|]. repeat split; auto.
+    rewrite X. unfold its_attr. lsimp. reflexivity.
   - apply andb_true_iff in H as [H1 H2]. apply negb_true_iff in H2.
-    destruct (pseudo_ok ns false e b c d w q p He H1) as (q' & E & N). do 2 eexists. split; [exact E|]. split; auto.
+    destruct (pseudo_ok ns false e b c d w q p He H1) as (q' & E & N & X). do 2 eexists. split; [exact E|]. split; auto.
+    split; [|split; [rewrite X; apply sq_pseudo_its|rewrite X; apply hblank_pseudo]].
     destruct p; cbn [after_pseudo pseudo_is_element] in *; rewrite ?H2; reflexivity.
   - do 2 (apply andb_true_iff in H; destruct H as [H ?]).
     rewrite msteps_cons.
@@ -1102,183 +1167,234 @@ Proof.
     { destruct e; try discriminate He; reflexivity. }
     rewrite S1. set (q0 := (I_negation_start, VStr (s ":not(")) :: q). assert (N0 : nb q0 = true) by reflexivity.
     rewrite msteps_app.
-    destruct (ws_inert ns E_negation_arg [CNegation] b c d w q0 w1 eq_refl) as (q1 & E1 & P1). rewrite E1.
+    destruct (ws_inert ns E_negation_arg [CNegation] b c d w q0 w1 eq_refl) as (q1 & E1 & P1 & X1). rewrite E1.
     rewrite msteps_app.
-    destruct (negarg_ok ns b c d w q1 a H1) as (q2 & E2 & N2). rewrite E2.
+    destruct (negarg_ok ns b c d w q1 a H1) as (q2 & E2 & N2 & X2). rewrite E2.
     destruct (sp_negarg a) as [[x y] z]. cbn [bumped]. rewrite msteps_app.
-    destruct (ws_inert ns E_negationend [CNegation] (x + b) (y + c) (z + d) w q2 w2 eq_refl) as (q3 & E3 & P3). rewrite E3.
+    destruct (ws_inert ns E_negationend [CNegation] (x + b) (y + c) (z + d) w q2 w2 eq_refl) as (q3 & E3 & P3 & X3). rewrite E3.
     exists E_simple_selector_sequence__combinator, ((I_negation_end, VStr (s ")")) :: q3).
-    split; [reflexivity|]. split; [|reflexivity].
-    apply (pres_nb q2); auto. eapply pres_trans; [exact P3|apply pres_push].
+    split; [reflexivity|]. split; [|split; [reflexivity|split; [|reflexivity]]].
+    + apply (pres_nb q2); auto. eapply pres_trans; [exact P3|apply pres_push].
+    + rewrite X3, X2, X1. unfold q0. lsimp. reflexivity.
 Qed.
 
 Lemma head_ok ns e b c d w q h : hstart e = true -> ok_head ns h = true ->
   exists e' q', msteps ns (mkSt e [] None b c d w q) (g_head h) = Some (bumped e' [] (sp_head h) b c d w q')
-                /\ pres q q' /\ match h with HNone => e' = e | _ => contB e' = true /\ nb q' = true end.
+                /\ pres q q' /\ match h with HNone => e' = e | _ => contB e' = true /\ nb q' = true end
+                /\ q' = rev (its_head ns h) ++ q /\ (h <> HNone -> hblank q' = false).
 Proof.
-  intros He. destruct h; cbn [ok_head g_head sp_head]; intros H.
-  - exists e, q. repeat split; auto using pres_refl.
+  intros He. destruct h; cbn [ok_head g_head sp_head its_head]; intros H.
+  - exists e, q. repeat split; auto using pres_refl. congruence.
   - apply andb_true_iff in H as [H1 H2]. do 2 eexists. split; [apply (tname_ok ns false); auto|].
-    split; [apply pres_push|]. split; reflexivity.
-  - do 2 eexists. split; [apply (univ_ok ns false); auto|]. split; [apply pres_push|]. split; reflexivity.
+    split; [apply pres_push|]. repeat split; reflexivity.
+  - do 2 eexists. split; [apply (univ_ok ns false); auto|]. split; [apply pres_push|]. repeat split; reflexivity.
 Qed.
 
 Lemma rest_simples_ok ns l : forall e b c d w q, cont e = true ->
   forallb (fun p => ok_cm (fst p) && ok_simple ns (snd p)) l = true ->
   exists e' q', msteps ns (mkSt e [] None b c d w q) (flat_map (fun p => r_cm (fst p) ++ g_simple (snd p)) l) =
                 Some (bumped e' [] (sum3 (map (fun p => sp_simple (snd p)) l)) b c d w q')
-                /\ pres q q' /\ match l with [] => e' = e | _ => contB e' = true /\ nb q' = true end.
+                /\ pres q q' /\ match l with [] => e' = e | _ => contB e' = true /\ nb q' = true end
+                /\ q' = rev (flat_map (fun p => its_cm (fst p) ++ its_simple ns (snd p)) l) ++ q
+                /\ (l <> [] -> hblank q' = false).
 Proof.
   induction l as [|[cm x] l IH]; intros e b c d w q He Hl.
-  - exists e, q. repeat split; auto using pres_refl.
+  - exists e, q. repeat split; auto using pres_refl. congruence.
   - cbn [forallb fst snd] in Hl. apply andb_true_iff in Hl as [H1 H2]. apply andb_true_iff in H1 as [H0 H1].
     cbn [flat_map fst snd map sum3 fold_right]. rewrite <- app_assoc, msteps_app.
-    destruct (cm_any ns e [] b c d w q cm) as (q1 & E1 & P1). rewrite E1. rewrite msteps_app.
-    destruct (simple_ok ns e b c d w q1 x He H1) as (e2 & q2 & E2 & N2 & C2). rewrite E2.
+    destruct (cm_any ns e [] b c d w q cm) as (q1 & E1 & P1 & X1). rewrite E1. rewrite msteps_app.
+    destruct (simple_ok ns e b c d w q1 x He H1) as (e2 & q2 & E2 & N2 & C2 & X2 & B2). rewrite E2.
     destruct (sp_simple x) as [[x1 y1] z1] eqn:Esp. cbn [bumped].
-    destruct (IH e2 (x1 + b) (y1 + c) (z1 + d) w q2 (contB_cont _ C2) H2) as (e3 & q3 & E3 & P3 & M3).
-    exists e3, q3. split.
+    destruct (IH e2 (x1 + b) (y1 + c) (z1 + d) w q2 (contB_cont _ C2) H2) as (e3 & q3 & E3 & P3 & M3 & X3 & B3).
+    exists e3, q3. split; [|split; [|split; [|split]]].
     + rewrite E3. f_equal. apply (bumped_bumped e3 [] (x1, y1, z1)).
-    + split; [intros _; apply (pres_nb q2); auto|].
-      destruct l as [|y l']; [rewrite M3; split; [exact C2|apply (pres_nb q2); auto]|exact M3].
+    + intros _; apply (pres_nb q2); auto.
+    + destruct l as [|y l']; [rewrite M3; split; [exact C2|apply (pres_nb q2); auto]|exact M3].
+    + rewrite X3, X2, X1. lsimp. reflexivity.
+    + intros _. destruct l as [|y l']; [cbn [flat_map rev app] in X3; rewrite X3; exact B2|apply B3; discriminate].
 Qed.
 
 Lemma compound_ok ns e b c d w q cp : hstart e = true -> ok_compound ns cp = true ->
   exists e' q', msteps ns (mkSt e [] None b c d w q) (g_compound cp) = Some (bumped e' [] (sp_compound cp) b c d w q')
-                /\ nb q' = true /\ clsB e' = true.
+                /\ nb q' = true /\ clsB e' = true /\ q' = rev (its_compound ns cp) ++ q /\ hblank q' = false.
 Proof.
   intros He H. unfold ok_compound in H. do 3 (apply andb_true_iff in H; destruct H as [H ?]).
   rename H into Hh, H2 into Hr, H1 into Hp, H0 into Hne. apply negb_true_iff in Hne.
-  unfold g_compound, sp_compound. rewrite msteps_app.
-  destruct (head_ok ns e b c d w q (c_head cp) He Hh) as (e1 & q1 & E1 & P1 & M1). rewrite E1.
+  unfold g_compound, sp_compound, its_compound. rewrite msteps_app.
+  destruct (head_ok ns e b c d w q (c_head cp) He Hh) as (e1 & q1 & E1 & P1 & M1 & X1 & B1). rewrite E1.
   destruct (sp_head (c_head cp)) as [[x1 y1] z1] eqn:Eh. cbn [bumped]. rewrite msteps_app.
   assert (C1 : cont e1 = true).
   { destruct (c_head cp); [subst; now apply hstart_cont|apply contB_cont, M1|apply contB_cont, M1]. }
-  destruct (rest_simples_ok ns (c_rest cp) e1 (x1 + b) (y1 + c) (z1 + d) w q1 C1 Hr) as (e2 & q2 & E2 & P2 & M2).
+  destruct (rest_simples_ok ns (c_rest cp) e1 (x1 + b) (y1 + c) (z1 + d) w q1 C1 Hr) as (e2 & q2 & E2 & P2 & M2 & X2 & B2).
   rewrite E2.
   destruct (sum3 (map (fun p => sp_simple (snd p)) (c_rest cp))) as [[x2 y2] z2] eqn:Er. cbn [bumped].
   assert (C2 : cont e2 = true).
   { destruct (c_rest cp); [subst; exact C1|apply contB_cont, M2]. }
   destruct (c_pe cp) as [[cm p]|] eqn:Epe.
   - do 2 (apply andb_true_iff in Hp; destruct Hp as [Hp ?]). rewrite msteps_app.
-    destruct (cm_any ns e2 [] (x2 + (x1 + b)) (y2 + (y1 + c)) (z2 + (z1 + d)) w q2 cm) as (q3 & E3 & P3). rewrite E3.
-    destruct (pseudo_ok ns false e2 (x2 + (x1 + b)) (y2 + (y1 + c)) (z2 + (z1 + d)) w q3 p C2 H0) as (q4 & E4 & N4).
-    exists (after_pseudo false p), q4. split.
+    destruct (cm_any ns e2 [] (x2 + (x1 + b)) (y2 + (y1 + c)) (z2 + (z1 + d)) w q2 cm) as (q3 & E3 & P3 & X3). rewrite E3.
+    destruct (pseudo_ok ns false e2 (x2 + (x1 + b)) (y2 + (y1 + c)) (z2 + (z1 + d)) w q3 p C2 H0) as (q4 & E4 & N4 & X4).
+    exists (after_pseudo false p), q4. split; [|split; [|split; [|split]]].
     + cbn [octx] in E4. rewrite E4. destruct (sp_pseudo p) as [[x3 y3] z3]. cbn [bumped add3]. f_equal. f_equal; lia.
-    + split; [exact N4|]. destruct p; cbn [after_pseudo pseudo_is_element] in *; rewrite ?H; reflexivity.
-  - exists e2, q2. split.
+    + exact N4.
+    + destruct p; cbn [after_pseudo pseudo_is_element] in *; rewrite ?H; reflexivity.
+    + rewrite X4, sq_pseudo_its, X3, X2, X1. lsimp. reflexivity.
+    + rewrite X4. apply hblank_pseudo.
+  - exists e2, q2. split; [|split; [|split; [|split]]].
     + cbn [msteps add3]. f_equal. cbn [bumped]. f_equal; lia.
     + destruct (c_rest cp) as [|s0 l0].
-      * subst e2. destruct (c_head cp); [discriminate Hne| |]; destruct M1 as [M1 M1'];
-          (split; [apply (pres_nb q1); auto|apply contB_clsB; auto]).
-      * destruct M2 as [M2 M2']. split; [exact M2'|apply contB_clsB; auto].
+      * subst e2. destruct (c_head cp); [discriminate Hne| |]; destruct M1 as [M1 M1']; apply (pres_nb q1); auto.
+      * destruct M2 as [M2 M2']. exact M2'.
+    + destruct (c_rest cp) as [|s0 l0].
+      * subst e2. destruct (c_head cp); [discriminate Hne| |]; destruct M1 as [M1 M1']; apply contB_clsB; auto.
+      * destruct M2 as [M2 M2']. apply contB_clsB; auto.
+    + rewrite X2, X1. lsimp. reflexivity.
+    + destruct (c_rest cp) as [|s0 l0].
+      * cbn [flat_map rev app] in X2. rewrite X2. apply B1. destruct (c_head cp); [discriminate Hne| |]; discriminate.
+      * apply B2. discriminate.
 Qed.
 
 Lemma comb_char_step ns e b c d w q x nm : clsB e = true ->
   (x = ">"%string /\ nm = I_child \/ x = "+"%string /\ nm = I_adjacent_sibling \/ x = "~"%string /\ nm = I_following_sibling) ->
   exists q', mstep ns (mkSt e [] None b c d w q) (ch x) = Some (mkSt E_simple_selector_sequence [] None b c d w q')
-             /\ pres q q'.
+             /\ pres q q' /\ q' = (nm, VStr (s x)) :: (if hS q then tl q else q).
 Proof.
   intros He Hx. unfold mstep. change (handler_of _) with (Some H_char). unfold h_char.
+  change (hS q) with (last_S (mkSt e [] None b c d w q)).
   destruct (last_S (mkSt e [] None b c d w q)) eqn:L.
-  - destruct q as [|i q]; [discriminate L|]. exists ((nm, VStr (s x)) :: q). split.
+  - destruct q as [|i q]; [discriminate L|]. exists ((nm, VStr (s x)) :: q). split; [|split; [|reflexivity]].
     + destruct Hx as [[-> ->]|[[-> ->]|[-> ->]]]; destruct e; try discriminate He; reflexivity.
     + apply pres_replace. eapply last_S_blank; eauto.
-  - exists ((nm, VStr (s x)) :: q). split; [|apply pres_push].
+  - exists ((nm, VStr (s x)) :: q). split; [|split; [apply pres_push|reflexivity]].
     destruct Hx as [[-> ->]|[[-> ->]|[-> ->]]]; destruct e; try discriminate He; reflexivity.
 Qed.
 
-Lemma comb_ok ns e b c d w q cb : clsB e = true -> ok_comb cb = true ->
-  exists e' q', msteps ns (mkSt e [] None b c d w q) (r_comb cb) = Some (mkSt e' [] None b c d w q')
-                /\ pres q q' /\ hstart e' = true.
+Lemma its_wsB_snoc w x : its_wsB (w ++ [x]) = its_wsB w ++ [match x with WS _ => it_desc | WC v => it_comment v end].
+Proof. unfold its_wsB. now rewrite map_app. Qed.
+(* the head of the seq after root-level layout, and what a following combinator does with it *)
+Lemma wsB_head w q : hblank q = false ->
+  hS (rev (its_wsB w) ++ q) = ends_WS w /\
+  (if ends_WS w then tl (rev (its_wsB w) ++ q) else rev (its_wsB w) ++ q) =
+  rev (if ends_WS w then removelast (its_wsB w) else its_wsB w) ++ q /\
+  hblank (rev (its_wsB w) ++ q) = ends_WS w.
 Proof.
-  intros He H.
+  intros Hq. unfold ends_WS. destruct (rev w) as [|x r] eqn:E.
+  - apply (f_equal (@rev _)) in E. rewrite rev_involutive in E. subst w. cbn. auto using hblank_hS.
+  - apply (f_equal (@rev _)) in E. rewrite rev_involutive in E. cbn [rev] in E. subst w.
+    rewrite its_wsB_snoc, rev_app_distr. cbn [rev app].
+    destruct x as [v|v]; cbn [hS hblank it_desc it_comment ival_is tl]; repeat split; try reflexivity.
+    + now rewrite removelast_last.
+    + now rewrite rev_app_distr.
+Qed.
+
+Lemma comb_ok ns e b c d w q cb : clsB e = true -> ok_comb cb = true ->
+  hblank q = false ->
+  exists e' q', msteps ns (mkSt e [] None b c d w q) (r_comb cb) = Some (mkSt e' [] None b c d w q')
+                /\ pres q q' /\ hstart e' = true /\ q' = rev (its_comb cb) ++ q.
+Proof.
+  intros He H Hq.
   assert (G : forall w1 w2 x nm, ok_ws w1 = true -> ok_ws w2 = true ->
      (x = ">"%string /\ nm = I_child \/ x = "+"%string /\ nm = I_adjacent_sibling \/ x = "~"%string /\ nm = I_following_sibling) ->
      exists e' q', msteps ns (mkSt e [] None b c d w q) (r_ws w1 ++ ch x :: r_ws w2) = Some (mkSt e' [] None b c d w q')
-                /\ pres q q' /\ hstart e' = true).
+                /\ pres q q' /\ hstart e' = true /\
+                q' = rev ((if ends_WS w1 then removelast (its_wsB w1) else its_wsB w1) ++ (nm, VStr (s x)) :: its_wsI w2) ++ q).
   { intros w1 w2 x nm _ _ Hx. rewrite msteps_app.
-    destruct (ws_root_B ns e b c d w q w1 He) as (e1 & q1 & E1 & P1 & B1 & _). rewrite E1.
+    destruct (ws_root_B ns e b c d w q w1 He) as (e1 & q1 & E1 & P1 & B1 & _ & X1). rewrite E1.
     rewrite msteps_cons. cbn [msteps].
-    destruct (comb_char_step ns e1 b c d w q1 x nm B1 Hx) as (q2 & E2 & P2). rewrite E2.
-    destruct (ws_inert ns E_simple_selector_sequence [] b c d w q2 w2 eq_refl) as (q3 & E3 & P3).
-    exists E_simple_selector_sequence, q3. split; [exact E3|]. split; [eauto using pres_trans|reflexivity]. }
-  destruct cb; cbn [ok_comb r_comb] in *.
+    destruct (comb_char_step ns e1 b c d w q1 x nm B1 Hx) as (q2 & E2 & P2 & X2). rewrite E2.
+    destruct (ws_inert ns E_simple_selector_sequence [] b c d w q2 w2 eq_refl) as (q3 & E3 & P3 & X3).
+    exists E_simple_selector_sequence, q3. split; [exact E3|]. split; [eauto using pres_trans|split; [reflexivity|]].
+    rewrite X3, X2, X1. destruct (wsB_head w1 q Hq) as (A1 & A2 & _). rewrite A1. lsimp. f_equal. f_equal. exact A2. }
+  destruct cb; cbn [ok_comb r_comb its_comb] in *.
   - do 2 (apply andb_true_iff in H; destruct H as [H ?]). rewrite msteps_app.
-    destruct (ws_root_B ns e b c d w q w1 He) as (e1 & q1 & E1 & P1 & B1 & _). rewrite E1.
+    destruct (ws_root_B ns e b c d w q w1 He) as (e1 & q1 & E1 & P1 & B1 & _ & X1). rewrite E1.
     rewrite msteps_cons.
     assert (S2 : msteps ns (mkSt e1 [] None b c d w q1) [mkS TS sp] =
                  Some (mkSt E_simple_selector_sequence__combinator [] None b c d w ((I_descendant, VStr (s " ")) :: q1))).
     { destruct e1; try discriminate B1; reflexivity. }
     rewrite S2.
     destruct (ws_root_B ns E_simple_selector_sequence__combinator b c d w ((I_descendant, VStr (s " ")) :: q1) w2 eq_refl)
-      as (e3 & q3 & E3 & P3 & B3 & K3).
-    exists e3, q3. split; [exact E3|]. split.
+      as (e3 & q3 & E3 & P3 & B3 & K3 & X3).
+    exists e3, q3. split; [exact E3|]. split; [|split].
     + eapply pres_trans; [exact P1|]. eapply pres_trans; [apply pres_push|exact P3].
     + rewrite (K3 eq_refl). reflexivity.
+    + rewrite X3, X1. unfold it_desc. lsimp. reflexivity.
   - apply andb_true_iff in H as [H1 H2]. apply (G w1 w2 ">"%string I_child); auto.
   - apply andb_true_iff in H as [H1 H2]. apply (G w1 w2 "+"%string I_adjacent_sibling); auto.
   - apply andb_true_iff in H as [H1 H2]. apply (G w1 w2 "~"%string I_following_sibling); auto.
 Qed.
 
-Lemma more_ok ns l : forall e b c d w q, clsB e = true -> nb q = true ->
+Lemma more_ok ns l : forall e b c d w q, clsB e = true -> nb q = true -> hblank q = false ->
   forallb (fun p => ok_comb (fst p) && ok_compound ns (snd p)) l = true ->
   exists e' q', msteps ns (mkSt e [] None b c d w q) (flat_map (fun p => r_comb (fst p) ++ g_compound (snd p)) l) =
                 Some (bumped e' [] (sum3 (map (fun p => sp_compound (snd p)) l)) b c d w q')
-                /\ nb q' = true /\ clsB e' = true.
+                /\ nb q' = true /\ clsB e' = true /\
+                q' = rev (flat_map (fun p => its_comb (fst p) ++ its_compound ns (snd p)) l) ++ q /\ hblank q' = false.
 Proof.
-  induction l as [|[cb cp] l IH]; intros e b c d w q He Hq Hl.
+  induction l as [|[cb cp] l IH]; intros e b c d w q He Hq Hb Hl.
   - exists e, q. repeat split; auto.
   - cbn [forallb fst snd] in Hl. apply andb_true_iff in Hl as [H1 H2]. apply andb_true_iff in H1 as [H0 H1].
     cbn [flat_map fst snd map sum3 fold_right]. rewrite <- app_assoc, msteps_app.
-    destruct (comb_ok ns e b c d w q cb He H0) as (e1 & q1 & E1 & P1 & S1). rewrite E1. rewrite msteps_app.
-    destruct (compound_ok ns e1 b c d w q1 cp S1 H1) as (e2 & q2 & E2 & N2 & B2). rewrite E2.
+    destruct (comb_ok ns e b c d w q cb He H0 Hb) as (e1 & q1 & E1 & P1 & S1 & X1). rewrite E1. rewrite msteps_app.
+    destruct (compound_ok ns e1 b c d w q1 cp S1 H1) as (e2 & q2 & E2 & N2 & B2 & X2 & Hb2). rewrite E2.
     destruct (sp_compound cp) as [[x1 y1] z1] eqn:Esp. cbn [bumped].
-    destruct (IH e2 (x1 + b) (y1 + c) (z1 + d) w q2 B2 N2 H2) as (e3 & q3 & E3 & N3 & B3).
-    exists e3, q3. split; [|split; assumption].
-    rewrite E3. f_equal. apply (bumped_bumped e3 [] (x1, y1, z1)).
+    destruct (IH e2 (x1 + b) (y1 + c) (z1 + d) w q2 B2 N2 Hb2 H2) as (e3 & q3 & E3 & N3 & B3 & X3 & Hb3).
+    exists e3, q3. split; [|split; [assumption|split; [assumption|split; [|assumption]]]].
+    + rewrite E3. f_equal. apply (bumped_bumped e3 [] (x1, y1, z1)).
+    + rewrite X3, X2, X1. lsimp. reflexivity.
 Qed.
 
+Definition trim (q : list item) : list item := if hblank q then tl q else q.
 Lemma finish_ok e b c d q : clsB e = true -> nb q = true ->
-  exists seq, finish (mkSt e [] None b c d true q) = Accepted b c d seq.
+  exists seq, finish (mkSt e [] None b c d true q) = Accepted b c d seq /\ seq = rev (trim q).
 Proof.
   intros He Hq. destruct q as [|[t v] r]; [discriminate|].
   unfold finish. cbn [wf ctx expd sq nonempty_sq andb negb orb spb spc spd].
   assert (T : negb (Tpost_0 e) && negb (Tpost_1 e && true) = true) by (destruct e; try discriminate He; reflexivity).
   rewrite T. destruct (blank v) eqn:Bv.
   - cbn [nb existsb] in Hq. unfold nbi at 1 in Hq. cbn [snd] in Hq. rewrite Bv in Hq. cbn [negb orb] in Hq.
-    destruct r; [discriminate|]. eexists. reflexivity.
-  - eexists. reflexivity.
+    destruct r; [discriminate|]. eexists. split; [reflexivity|]. unfold trim. cbn [hblank]. rewrite Bv. reflexivity.
+  - eexists. split; [reflexivity|]. unfold trim. cbn [hblank]. rewrite Bv. reflexivity.
 Qed.
 
 Theorem run_glued ns x : Declared ns x ->
   exists seq, run ns (g_selector x) =
-              Some (match sp_selector x with (b, c, d) => Accepted b c d seq end).
+              Some (match sp_selector x with (b, c, d) => Accepted b c d seq end) /\ seq = seq_of ns x.
 Proof.
   unfold Declared, declared_b. intros H. do 3 (apply andb_true_iff in H; destruct H as [H ?]).
   rename H into Hl, H2 into Hf, H1 into Hm, H0 into Ht.
   unfold run, g_selector, st0. change E_initial with E_simple_selector_sequence.
   rewrite msteps_app.
-  destruct (ws_inert ns E_simple_selector_sequence [] 0 0 0 true [] (s_lead x) eq_refl) as (q1 & E1 & _). rewrite E1.
+  destruct (ws_inert ns E_simple_selector_sequence [] 0 0 0 true [] (s_lead x) eq_refl) as (q1 & E1 & _ & X1). rewrite E1.
   rewrite msteps_app.
-  destruct (compound_ok ns E_simple_selector_sequence 0 0 0 true q1 (s_first x) eq_refl Hf) as (e2 & q2 & E2 & N2 & B2).
+  destruct (compound_ok ns E_simple_selector_sequence 0 0 0 true q1 (s_first x) eq_refl Hf) as (e2 & q2 & E2 & N2 & B2 & X2 & Hb2).
   rewrite E2. unfold sp_selector.
   destruct (sp_compound (s_first x)) as [[x1 y1] z1]. cbn [bumped]. rewrite msteps_app.
-  destruct (more_ok ns (s_more x) e2 (x1 + 0) (y1 + 0) (z1 + 0) true q2 B2 N2 Hm) as (e3 & q3 & E3 & N3 & B3).
+  destruct (more_ok ns (s_more x) e2 (x1 + 0) (y1 + 0) (z1 + 0) true q2 B2 N2 Hb2 Hm) as (e3 & q3 & E3 & N3 & B3 & X3 & Hb3).
   rewrite E3.
   destruct (sum3 (map (fun p => sp_compound (snd p)) (s_more x))) as [[x2 y2] z2]. cbn [bumped add3].
   destruct (ws_root_B ns e3 (x2 + (x1 + 0)) (y2 + (y1 + 0)) (z2 + (z1 + 0)) true q3 (s_trail x) B3)
-    as (e4 & q4 & E4 & P4 & B4 & _).
+    as (e4 & q4 & E4 & P4 & B4 & _ & X4).
   rewrite E4. cbn [option_map].
-  destruct (finish_ok e4 (x2 + (x1 + 0)) (y2 + (y1 + 0)) (z2 + (z1 + 0)) q4 B4 (P4 N3)) as (seq & F).
-  exists seq. rewrite F. f_equal. f_equal; lia.
+  destruct (finish_ok e4 (x2 + (x1 + 0)) (y2 + (y1 + 0)) (z2 + (z1 + 0)) q4 B4 (P4 N3)) as (seq & F & XF).
+  exists seq. split; [rewrite F; f_equal; f_equal; lia|].
+  rewrite XF. unfold trim. rewrite X4. destruct (wsB_head (s_trail x) q3 Hb3) as (_ & A2 & A3). rewrite A3.
+  transitivity (rev (rev (if ends_WS (s_trail x) then removelast (its_wsB (s_trail x)) else its_wsB (s_trail x)) ++ q3)).
+  { f_equal. destruct (ends_WS (s_trail x)); exact A2. }
+  rewrite X3, X2, X1. unfold seq_of. lsimp. rewrite !rev_involutive. reflexivity.
+Qed.
+
+Theorem seq_is_expected_lemma ns x : Declared ns x -> seq (run ns (prepass (render x))) = seq_of ns x.
+Proof.
+  intros H. rewrite (prepass_render ns x H). destruct (run_glued ns x H) as (q & E & X). rewrite E.
+  destruct (sp_selector x) as [[b c] d]. exact X.
 Qed.
 
 Theorem specificity_correct_lemma ns x : Declared ns x ->
   wellformed (run ns (prepass (render x))) = true /\
   spec (run ns (prepass (render x))) = (0, ids x, classes_attrs_pseudoclasses x, types_pseudoelements x)%nat.
 Proof.
-  intros H. rewrite (prepass_render ns x H). destruct (run_glued ns x H) as (seq & E). rewrite E.
+  intros H. rewrite (prepass_render ns x H). destruct (run_glued ns x H) as (seq & E & _). rewrite E.
   unfold ids, classes_attrs_pseudoclasses, types_pseudoelements.
   destruct (sp_selector x) as [[b c] d]. split; reflexivity.
 Qed.
@@ -1305,7 +1421,7 @@ Theorem held_specificity_lemma ns h0 before sel rej :
 Proof.
   intros Hd Hr h1. revert h0. induction before as [|g before IH]; intros h0 Hb.
   - cbn [app assigns_glued]. unfold assign_glued. rewrite (prepass_render ns sel Hd).
-    destruct (run_glued ns sel Hd) as (seq & E). rewrite E. cbn [option_map].
+    destruct (run_glued ns sel Hd) as (seq & E & _). rewrite E. cbn [option_map].
     destruct (sp_selector sel) as [[b c] d]. cbn [commit]. exists seq. now apply rejected_keeps.
   - cbn [app assigns_glued] in *. destruct (assign_glued ns h0 g) as [h'|]; [|discriminate]. now apply IH.
 Qed.
@@ -1440,7 +1556,7 @@ Definition mem_of (ns : ns_map) (x : selector) : option member :=
 
 Lemma member_spec ns x : Declared ns x -> exists q, mem_of ns x = Some (sp_selector x, q).
 Proof.
-  intros Hd. unfold mem_of. rewrite (prepass_render ns x Hd). destruct (run_glued ns x Hd) as (q & E). rewrite E.
+  intros Hd. unfold mem_of. rewrite (prepass_render ns x Hd). destruct (run_glued ns x Hd) as (q & E & _). rewrite E.
   destruct (sp_selector x) as [[b c] d]. exists q. reflexivity.
 Qed.
 
